@@ -51,6 +51,7 @@ def patterns():
         # one variable twice below a non-commutative node
         p.Call(f, (a, a)), p.Power(a, a), p.Comparison(p.Call(g, (a,)), "<", a), p.If(p.Comparison(a, "<", 0), a, b),
         p.Subscript(arr, (a, a)), p.Call(f, (a, b, a)), p.Quotient(a, S(a, b)),
+        p.FloorDiv(a, b), p.Remainder(a, b), S(p.FloorDiv(a, 2), b), p.Comparison(a, "<=", S(b, 1)),
     ]
 
 
@@ -283,6 +284,19 @@ def check_unify(pi, tier, twin=False):
         if other is not pat:
             targets.append((f"other{oj}", subst(other, substitutions()[0][1]), False))
             targets.append((f"other{oj}-own-names", other, False))
+    # the same operands under a sibling node class / operator (must not match): / vs // vs %, + vs *, < vs <=
+    ren = substitutions()[0][1]
+    siblings = {p.Quotient: (p.FloorDiv, p.Remainder), p.FloorDiv: (p.Quotient, p.Remainder), p.Remainder: (p.Quotient, p.FloorDiv)}
+    if type(pat) in siblings:
+        for cls in siblings[type(pat)]:
+            targets.append((f"sibling-{cls.__name__}", cls(subst(pat.numerator, ren), subst(pat.denominator, ren)), False))
+    if isinstance(pat, (p.Sum, p.Product)):
+        other_cls = p.Product if isinstance(pat, p.Sum) else p.Sum
+        targets.append((f"sibling-{other_cls.__name__}", other_cls(tuple(subst(c, ren) for c in pat.children)), False))
+    if isinstance(pat, p.Comparison):
+        for op_ in ("<", "<=", "==", ">"):
+            if op_ != pat.operator:
+                targets.append((f"sibling-op{op_}", p.Comparison(subst(pat.left, ren), op_, subst(pat.right, ren)), False))
     # the pattern with one occurrence of a repeated variable changed (near misses, also with the pattern's own names)
     for nm in sorted(used):
         for repl in (V("x"), V("b") if nm != "b" else V("a")):
